@@ -48,6 +48,8 @@ func QToProto(q Q) *webserverv1.Q {
 		return &webserverv1.Q{Query: &webserverv1.Q_Branch{Branch: v.ToProto()}}
 	case *Boost:
 		return &webserverv1.Q{Query: &webserverv1.Q_Boost{Boost: v.ToProto()}}
+	case *Meta:
+		return &webserverv1.Q{Query: &webserverv1.Q_Meta{Meta: v.ToProto()}}
 	default:
 		// The following nodes do not have a proto representation:
 		// - caseQ: only used internally, not by the RPC layer
@@ -386,6 +388,13 @@ func MetaFromProto(p *webserverv1.Meta) (*Meta, error) {
 		Field: p.GetKey(),
 		Value: re,
 	}, nil
+}
+
+func (m *Meta) ToProto() *webserverv1.Meta {
+	return &webserverv1.Meta{
+		Key:   m.Field,
+		Value: m.Value.String(),
+	}
 }
 
 func (q *Boost) ToProto() *webserverv1.Boost {
